@@ -163,7 +163,23 @@ impl Style {
     }
 }
 
-pub const COMMENT_TEXTS: [&str; 14] = [
+pub const COMMENT_TEXTS: [&str; 30] = [
+    "masks are listed in doc/*.txt",
+    "built from src/*.asm /* never closed",
+    "a closing */ only",
+    "@0 and @1",
+    "back\\slash \\",
+    "tab\there",
+    "\u{b5}C \u{2014} non-ASCII",
+    "'c' and 'x",
+    "\"unterminated",
+    "(paren",
+    "0x 0b $ff",
+    ".exit",
+    ".include \"nowhere.inc\"",
+    ".device ATmega8",
+    ".error \"no\"",
+    ".org 0x100",
     "plain comment",
     "with \"quotes\" inside",
     "a, b, c",
@@ -186,7 +202,7 @@ fn comment(st: &mut Style) -> String {
     match r.below(3) {
         0 => format!("; {}", t),
         1 => format!("// {}", t),
-        _ => format!("/* {} */", t.replace("*/", "* /")),
+        _ => format!("/* {} */", t.replace("*/", "* /").replace("/*", "/ *")),
     }
 }
 
